@@ -8,6 +8,7 @@ import (
 	"os"
 	"time"
 
+	"verif/harness/chain"
 	"verif/harness/distributor"
 	"verif/harness/minter"
 	"verif/harness/signature"
@@ -41,6 +42,7 @@ func main() {
 	walks := fs.Int("walks", 0, "random walks after the DFS")
 	depth := fs.Int("depth", 8, "random walk depth")
 	seed := fs.Int64("seed", 1, "seed for random walks")
+	repeat := fs.Int("repeat", 2, "in-process repetitions of every history (replicas)")
 	fs.Parse(os.Args[2:])
 	_ = time.Second
 	switch cmd {
@@ -72,6 +74,25 @@ func main() {
 			os.Exit(2)
 		}
 		writeResult(*out, res)
+	case "chain":
+		res, err := chain.Run(*edges, *workers, *budget, *walks, *depth, *seed)
+		if err != nil {
+			fmt.Fprintln(os.Stderr, "chain:", err)
+			os.Exit(2)
+		}
+		writeResult(*out, res)
+	case "replicas":
+		// one replica process: n seeded histories through real ABCI, each repeated in-process
+		hs, fs, blocks, err := chain.Histories(*edges, *walks, *depth, *repeat, *seed)
+		if err != nil {
+			fmt.Fprintln(os.Stderr, "replicas:", err)
+			os.Exit(2)
+		}
+		b, _ := json.MarshalIndent(map[string]any{"histories": hs, "findings": fs, "blocks": blocks}, "", " ")
+		if err := os.WriteFile(*out, b, 0o644); err != nil {
+			fmt.Fprintln(os.Stderr, err)
+			os.Exit(2)
+		}
 	default:
 		fmt.Fprintln(os.Stderr, "unknown command", cmd)
 		os.Exit(2)
